@@ -225,4 +225,41 @@ structure InvE (cfg : Cfg) (s : State) : Prop where
 theorem InvE.init (cfg : Cfg) : InvE cfg init := by
   constructor <;> simp [Kopf.C20.init, initSt, Root.guarded, Root.kind]
 
+/-- where `startup_cleanup_activities` is after a FAILED startup activity -/
+def scFailPath : Sc → Bool
+  | .stopCore .failed | .coreStopping .failed | .over .failed => true
+  | _ => false
+
+/-- The escalation of the FIRST failure (`tFail`, `failWho`) while `run_tasks` still waits: who is responsible for
+    the next step, and by when. `bound` is the claim; the other clauses carry it through the stages
+    (failing task's own `finally:` ≤ G, then — for an ensemble task — the orchestrator stopping the others ≤ G). -/
+structure InvT (cfg : Cfg) (s : State) : Prop where
+  tfNow : ∀ tf, s.tFail = some tf → tf ≤ s.now
+  whoSome : s.tFail.isSome = true → s.failWho.isSome = true
+  orchAtSome : (s.st (.root .orchestrator)).isStopping = true → s.orchStopAt.isSome = true
+  orchAtLe : ∀ to, s.orchStopAt = some to → to ≤ s.now
+  c2 : ∀ to, s.orchStopAt = some to → (s.st (.root .orchestrator)).isStopping = true →
+    ∀ j, j < s.nSubs → (s.st (.sub j)).live = true →
+      (s.creq (.sub j) = true ∧ s.now = to) ∨ (s.st (.sub j)).isStopping = true
+  d2 : ∀ to, s.orchStopAt = some to → (s.st (.root .orchestrator)).isStopping = true →
+    ∀ j f dl, j < s.nSubs → s.st (.sub j) = .stopping f (some dl) → dl ≤ to + G cfg
+  whoRoot : ∀ tf r, s.rt = .waiting → s.tFail = some tf → s.failWho = some (.root r) →
+    (s.st (.root r)).ended = true
+    ∨ (s.st (.root r) = .running ∧ s.creq (.root r) = true ∧ s.now = tf)
+    ∨ ((s.st (.root r)).isStopping = true ∧ ∀ f dl, s.st (.root r) = .stopping f (some dl) → dl ≤ tf + G cfg)
+    ∨ (r = .startupCleanup ∧ (s.st (.root r)).live = true ∧ scFailPath s.sc = true)
+    ∨ (r = .coreWatcher ∧ s.st (.root r) = .running ∧ s.core = .failed ∧ cfg.coreWatched = true)
+  whoSub : ∀ tf i, s.rt = .waiting → s.tFail = some tf → s.failWho = some (.sub i) →
+    cfg.fixed = true ∧ i < s.nSubs ∧ s.gone i = false ∧
+    ((s.st (.sub i) = .running ∧ s.creq (.sub i) = true ∧ s.werr (.sub i) = true ∧ s.now = tf)
+    ∨ ((s.st (.sub i)).isStopping = true ∧ ∀ f dl, s.st (.sub i) = .stopping f (some dl) → f = true ∧ dl ≤ tf + G cfg)
+    ∨ (s.st (.sub i) = .failed ∧
+        ((s.st (.root .orchestrator) = .running ∧ s.creq (.root .orchestrator) = true ∧ s.now ≤ tf + G cfg)
+        ∨ ((s.st (.root .orchestrator)).isStopping = true ∧ ∀ to, s.orchStopAt = some to → to ≤ tf + G cfg)
+        ∨ (s.st (.root .orchestrator)).ended = true)))
+  bound : ∀ tf, s.rt = .waiting → s.tFail = some tf → s.now ≤ tf + 2 * G cfg
+
+theorem InvT.init (cfg : Cfg) : InvT cfg init := by
+  constructor <;> simp [Kopf.C20.init, initSt, Root.guarded, Root.kind]
+
 end Kopf.C20
